@@ -9,7 +9,7 @@ import oracle_dataflow as od
 import runner
 from framework import Outcome
 
-CAPTURABLE = ("c1", "c2", "c3", "accum", "sample", "timer0", "timer1", "suml", "sumb")
+CAPTURABLE = ("c1", "c2", "c3", "accum", "sample", "samplemid", "timer0", "timer1", "suml", "sumb")
 
 
 def descendants(prog, roots):
